@@ -163,7 +163,7 @@ def run():
         sim = export(ctx, cfg, fam, 12, simulate=nsim)
         FD = ctx.pick(4, 5)
         foc = export(ctx, cfg, fam, FD, focus=1) if fam != 3 or not ctx.quick else []
-        F2 = ctx.pick(7, 8)             # includes the compute_cycle_timings preamble
+        F2 = 7                          # includes the compute_cycle_timings preamble (depth 8 needs more memory than is reasonable)
         foc2 = export(ctx, cfg, fam, F2, focus=2)
 
         def hist_of(b):
